@@ -441,10 +441,14 @@ pub fn constant_program(rng: &mut StdRng) -> (Vec<u8>, bool) {
     // now and then: two memory words whose offsets agree in their low bits, written and read back
     if rng.gen_bool(0.2) {
         let low = 32 * rng.gen_range(0u8..4);
-        let far: Vec<u8> = match rng.gen_range(0..3) {
+        let far: Vec<u8> = match rng.gen_range(0..6) {
             0 => vec![1, 0, low],
             1 => vec![1, 0, 0, 0, low],
-            _ => vec![2, 0, 0, 0, 0, low],
+            2 => vec![2, 0, 0, 0, 0, low],
+            // offsets that agree modulo 2^64 / 2^128 / 2^255 (a host-sized index would merge them)
+            3 => [vec![1u8], vec![0; 7], vec![low]].concat(),
+            4 => [vec![1u8], vec![0; 15], vec![low]].concat(),
+            _ => [vec![0x80u8], vec![0; 30], vec![low]].concat(),
         };
         let key = |slot: u8| -> Vec<Item> {
             if key_forms[slot as usize] {
